@@ -145,7 +145,7 @@ class Step:
             return _div(self.ev(t[1], env), self.ev(t[2], env))
         if op in REDUCE and len(t) == 2:
             return self.ev(t[1], env)
-        if isinstance(op, str) and op.startswith('new:') and len(t) == 2:
+        if isinstance(op, str) and op.startswith('new:') and (len(t) == 2 or (len(t) == 3 and isinstance(t[2], tuple) and t[2] and str(t[2][0]).endswith('::PrivateType'))):
             return self.ev(t[1], env)
         if op in MINS and len(t) == 3:
             return min(self.ev(t[1], env), self.ev(t[2], env))
@@ -221,6 +221,25 @@ class Step:
                 if ty.get('c') == 'int' and ty.get('signed') is False and isinstance(val, int) and not isinstance(val, bool) and val < 0 and ty.get('bits'):
                     val %= 2 ** int(ty['bits'])            # conversion of a negative integer to an unsigned type: modulo 2^N
                 env[v['name']] = val
+        elif k == 'For' and self.loops:
+            # a real loop over a concrete sequence / counter
+            if node.get('init') is not None:
+                self.run(node['init'], env, ignore)
+            n_ = 0
+            while node.get('c') is None or self.ev(self.unwrap(sx(node['c'])), env):
+                n_ += 1
+                if n_ > self.loops:
+                    raise Unsupported('loop at %s does not end within %d rounds' % (node.get('loc'), self.loops))
+                try:
+                    self.run(node.get('b'), env, ignore)
+                except _Break:
+                    break
+                except _Continue:
+                    pass
+                if node.get('inc') is not None:
+                    inc = self.unwrap(sx(node['inc']))
+                    for i_ in (list(inc[1:]) if isinstance(inc, tuple) and inc and inc[0] == ',' else [inc]):
+                        self.ev(i_, env)
         elif k == 'For':
             # component loop: for (i = 0; i < SIZE; ++i) over the coordinates -> one generic coordinate
             init = node.get('init')
@@ -288,6 +307,8 @@ def inliner(fx, step, max_depth=4, cls=None):
             return NotImplemented
         method = op.startswith('.')
         name = op.lstrip('.').split('<')[0].split('::')[-1]
+        if '>::' in op:
+            name = op.rsplit('>::', 1)[-1].split('<')[0]          # static member of a class template: A<B, C>::f
         args = t[2:] if method else t[1:]
         cands = [g for g in fx.functions.values() if g.get('body') is not None and g['name'] == name and len(g.get('params', [])) == len(args)]
         if cls is not None and method and any(g.get('cls') == cls for g in cands):
@@ -348,6 +369,18 @@ def list_hooks(step, loops=10000):
         step.hooks[nm] = lambda t, env: SeqIter(seq(t[1], env), 0)
     for nm in ('std::cend', 'std::end', '.end', '.cend'):
         step.hooks[nm] = lambda t, env: SeqIter(seq(t[1], env), len(seq(t[1], env)))
+    def subscript(t, env):
+        b_ = step.ev(t[1], env)
+        i_ = step.ev(t[2], env)
+        if isinstance(b_, list) and isinstance(i_, int) and not isinstance(i_, bool):
+            if not (0 <= i_ < len(b_)):
+                raise Unsupported('subscript %d outside a sequence of %d' % (i_, len(b_)))
+            return b_[i_]
+        if isinstance(b_, list):
+            raise Unsupported('subscript %s' % (i_,))
+        return b_                                  # scalar abstraction of a vector quantity
+    step.hooks['[]'] = subscript
+    step.hooks['.at'] = subscript
     step.hooks['.size'] = lambda t, env: len(seq(t[1], env))
     step.hooks['.empty'] = lambda t, env: len(seq(t[1], env)) == 0
     step.hooks['.front'] = lambda t, env: SeqIter(seq(t[1], env), 0).deref()
